@@ -93,6 +93,234 @@ class Spec:
             if g[1] is not None:
                 th["scopes"].pop()
 
+    # ---------------------------------------------------------------- interpreter
+    def touch(self, t):
+        self.th(t)["touched"] = True
+
+    def new_span(self, v, name, items, root_key=None):
+        self.spans[v] = {"name": name, "items": items, "root_key": root_key, "props": [], "events": [], "attached": [], "var": v}
+
+    def apply(self, line, pos):
+        """updates the expectation with one program line (`<thread> <op> args`)"""
+        self.pos = pos
+        w = line.split()
+        t, op, a = int(w[0]), w[1], w[2:]
+        th = self.th(t)
+        if op == "setReporter":
+            self.reporter = True
+            self.cancelable = a[0] == "1"
+        elif op == "spawn":
+            pass
+        elif op == "touch":
+            self.touch(t)
+        elif op == "root":
+            v, name, trace, span, sampled = a[0], unhx(a[1]), int(a[2], 16), int(a[3], 16), a[4] == "1"
+            if not self.reporter:
+                self.spans[v] = None
+                return
+            key = "c%d" % self.nroots if sampled else "U"
+            if sampled:
+                self.nroots += 1
+                self.traces[key] = {"trace": trace, "sampled": True, "cancelled": False, "commit_pos": None, "start_pos": pos, "thread": t}
+                self.touch(t)
+            self.new_span(v, name, [{"trace": trace, "parent": ("remote", span), "root": key, "sampled": sampled}], key)
+        elif op == "child1":
+            v, name, p = a[0], unhx(a[1]), a[2]
+            ps = self.spans[p]
+            if ps is None:
+                self.spans[v] = None
+            else:
+                self.new_span(v, name, self.issue(ps))
+        elif op == "childN":
+            v, name = a[0], unhx(a[1])
+            items = []
+            for p in ([] if a[2] == "_" else a[2].split(",")):
+                if self.spans[p] is not None:
+                    items += self.issue(self.spans[p])
+            self.new_span(v, name, items)
+        elif op == "childLocal":
+            v, name = a[0], unhx(a[1])
+            tok = self.cur_token(t)
+            if tok is None:
+                self.spans[v] = None
+            else:
+                self.new_span(v, name, tok)
+        elif op == "withProps":
+            sp = self.spans[a[0]]
+            kvs = rprops(a[1].split(":", 1)[1])
+            self.closure_obs.append((pos, sp is not None))
+            if sp is not None:
+                sp["props"] += kvs
+        elif op == "addProps":
+            sp = self.spans[a[0]]
+            kvs = rprops(a[1].split(":", 1)[1])
+            self.closure_obs.append((pos, sp is not None))
+            if sp is not None:
+                for it in sp["items"]:
+                    if it["sampled"]:
+                        self.touch(t)
+                        sp["attached"].append((it["root"], ("props", kvs)))
+        elif op == "addEvent":
+            sp = self.spans[a[0]]
+            name = unhx(a[1])
+            props = [] if a[2] == "none" else rprops(a[2])
+            if sp is not None:
+                for it in sp["items"]:
+                    if it["sampled"]:
+                        self.touch(t)
+                        sp["attached"].append((it["root"], ("event", name, props)))
+        elif op == "drop":
+            sp = self.spans.pop(a[0])
+            if sp is None:
+                return
+            for it in sp["items"]:
+                if it["sampled"]:
+                    self.touch(t)
+                    att = [x for (rk, x) in sp["attached"] if rk == it["root"]]
+                    props = list(sp["props"])
+                    events = []
+                    for x in att:
+                        if x[0] == "props":
+                            props += x[1]
+                        else:
+                            events.append((x[1], x[2]))
+                    self.deliver(sp["name"], it, it["parent"], props, events, "span")
+            if sp["root_key"]:
+                self.touch(t)
+                if sp["root_key"] != "U":
+                    tr = self.traces[sp["root_key"]]
+                    tr["commit_pos"] = pos
+                    tr["commit_thread"] = t
+        elif op == "cancel":
+            sp = self.spans[a[0]]
+            if sp is not None and sp["root_key"]:
+                self.touch(t)
+                if sp["root_key"] != "U" and self.cancelable:
+                    self.traces[sp["root_key"]]["cancelled"] = True
+        elif op == "elapsed":
+            pass
+        elif op == "ctxOf":
+            sp = self.spans[a[0]]
+            exp = None
+            if sp is not None and sp["items"]:
+                it = sp["items"][0]
+                exp = (it["trace"], ("span", sp["name"]), it["sampled"])
+            self.ctx_obs.append((pos, exp))
+        elif op == "ctxLocal":
+            tok = self.cur_token(t)
+            self.ctx_obs.append((pos, self.ctx_of_items(tok) if tok else None))
+        elif op == "scope":
+            sp = self.spans[a[0]]
+            if sp is None or len(th["scopes"]) >= STACK_CAP:
+                th["guards"].append(("scope", None))
+                return
+            sc = {"kind": "parent", "items": self.issue(sp), "sampled": any(it["sampled"] for it in sp["items"]),
+                  "open": [], "entries": [], "qlen": 0, "owner": sp, "to_owner": []}
+            th["scopes"].append(sc)
+            th["guards"].append(("scope", sc))
+        elif op == "collectorStart":
+            if len(th["scopes"]) >= STACK_CAP:
+                th["guards"].append(("coll", None))
+                return
+            sc = {"kind": "coll", "items": [], "sampled": True, "open": [], "entries": [], "qlen": 0, "owner": None, "to_owner": []}
+            th["scopes"].append(sc)
+            th["guards"].append(("coll", sc))
+        elif op == "localEnter":
+            name = unhx(a[0])
+            sc = self.top(t)
+            if sc is None or not sc["sampled"] or sc["qlen"] >= QUEUE_CAP:
+                th["guards"].append(("local", None, None))
+                return
+            e = {"name": name, "parent": ("span", sc["open"][-1]) if sc["open"] else None, "props": [], "events": []}
+            sc["entries"].append(e)
+            sc["qlen"] += 1
+            sc["open"].append(name)
+            th["guards"].append(("local", e, sc))
+        elif op == "close":
+            g = th["guards"].pop()
+            self.close_guard(t, g)
+            if g[0] == "scope" and g[1] is not None and g[1]["sampled"]:
+                self.touch(t)
+        elif op == "collect":
+            g = th["guards"].pop()
+            ents = []
+            if g[1] is not None:
+                th["scopes"].pop()
+                ents = g[1]["entries"]
+            self.lspans[a[0]] = ents
+        elif op == "lWithProps":
+            kvs = rprops(a[0].split(":", 1)[1])
+            g = th["guards"][-1]
+            self.closure_obs.append((pos, g[1] is not None))
+            if g[1] is not None:
+                g[1]["props"] += kvs
+        elif op == "lAddProps":
+            kvs = rprops(a[0].split(":", 1)[1])
+            sc = self.top(t)
+            rec = sc is not None and sc["sampled"]
+            self.closure_obs.append((pos, rec))
+            if rec and sc["qlen"] < QUEUE_CAP:
+                sc["qlen"] += 1
+                self.attach_local(sc, ("props", kvs))
+        elif op == "lAddEvent":
+            name = unhx(a[0])
+            props = [] if a[1] == "none" else rprops(a[1])
+            sc = self.top(t)
+            if sc is not None and sc["sampled"] and sc["qlen"] < QUEUE_CAP:
+                sc["qlen"] += 1
+                self.attach_local(sc, ("event", name, props))
+        elif op == "pushChild":
+            sp = self.spans[a[0]]
+            ents = self.lspans[a[1]]
+            if sp is None or not ents:
+                return
+            for it in self.issue(sp):
+                if it["sampled"]:
+                    self.touch(t)
+                    for e in ents:
+                        self.deliver(e["name"], it, e["parent"] or it["parent"], e["props"], e["events"], "pushed")
+        elif op == "exit":
+            while th["guards"]:
+                g = th["guards"].pop()
+                self.close_guard(t, g)
+                if g[0] == "scope" and g[1] is not None and g[1]["sampled"]:
+                    self.touch(t)
+            th["alive"] = False
+        elif op == "spam":
+            if self.reporter:
+                self.touch(t)
+        # toRecords, cycle, flush, cycBegin, cycStep, stats: no effect on the expectation
+
+    def attach_local(self, sc, a):
+        if sc["open"]:
+            e = [x for x in sc["entries"] if x["name"] == sc["open"][-1]][0]
+            if a[0] == "props":
+                e["props"] += a[1]
+            else:
+                e["events"].append((a[1], a[2]))
+        elif sc["kind"] == "parent":
+            sc["to_owner"].append(a)
+        else:
+            sc.setdefault("orphans", []).append(a)   # collector scope, no local open: parent id 0
+
+
+def spec_of(lines):
+    """the expectation for a whole program (used for replay files, corpus and shrinking)"""
+    s = Spec()
+    for i, l in enumerate(lines):
+        s.apply(l, i)
+    return s
+
+
+def unhx(h):
+    return "" if h == "-" else bytes.fromhex(h).decode("utf-8")
+
+
+def rprops(s):
+    if s == "_":
+        return []
+    return [tuple(unhx(x) for x in kv.split("=")) for kv in s.split("&")]
+
 
 class Gen:
     def __init__(self, rng, mode="tree", knobs=None):
@@ -108,11 +336,13 @@ class Gen:
         self.n = 0
         self.vars = 0
         self.trace_ctr = 0
+        self.pushed = {}
 
     # ------------------------------------------------------------------ emit
     def emit(self, t, text):
-        self.lines.append("%d %s" % (t, text))
-        self.s.pos = len(self.lines) - 1
+        line = "%d %s" % (t, text)
+        self.lines.append(line)
+        self.s.apply(line, len(self.lines) - 1)
 
     def name(self, pfx="s"):
         self.n += 1
@@ -132,24 +362,20 @@ class Gen:
         re = 0
         if self.mode == "wild" and self.r.chance(1, 3):
             re = 1 + self.r.below(4)
-        return self.kvs(), re
+        return "%d:%s" % (re, wprops(self.kvs()))
 
     def live_threads(self):
         return [t for t, th in self.s.threads.items() if th["alive"]]
 
-    # ------------------------------------------------------------------ ops with spec
+    # ------------------------------------------------------------------ ops (the expectation is updated by Spec.apply)
     def op_set_reporter(self):
         self.emit(0, "setReporter %d" % (1 if self.k["cancelable"] else 0))
-        self.s.reporter = True
-        self.s.cancelable = self.k["cancelable"]
 
     def op_spawn(self, t):
         self.emit(t, "spawn")
-        self.s.th(t)
 
     def op_touch(self, t):
         self.emit(t, "touch")
-        self.s.th(t)["touched"] = True
 
     def op_root(self, t, sampled=True, ctx=None):
         v, name = self.var(), self.name("r")
@@ -160,230 +386,80 @@ class Gen:
         else:
             trace, span = ctx
         self.emit(t, "root %s %s %x %x %d" % (v, hx(name), trace, span, 1 if sampled else 0))
-        s = self.s
-        if not s.reporter:
-            s.spans[v] = None
-            return v
-        s.nroots += 1
-        key = "c%d" % s.nroots if sampled else "U"
-        if sampled:
-            s.traces[key] = {"trace": trace, "sampled": True, "cancelled": False, "commit_pos": None, "start_pos": s.pos, "thread": t}
-            s.th(t)["touched"] = True
-        s.spans[v] = {"name": name, "items": [{"trace": trace, "parent": ("remote", span), "root": key, "sampled": sampled}],
-                      "root_key": key, "props": [], "events": [], "attached": [], "var": v}
         return v
 
     def op_child1(self, t, p):
-        v, name = self.var(), self.name()
-        self.emit(t, "child1 %s %s %s" % (v, hx(name), p))
-        ps = self.s.spans[p]
-        self.s.spans[v] = None if ps is None else {"name": name, "items": self.s.issue(ps), "root_key": None, "props": [], "events": [], "attached": [], "var": v}
+        v = self.var()
+        self.emit(t, "child1 %s %s %s" % (v, hx(self.name()), p))
         return v
 
     def op_childN(self, t, ps):
-        v, name = self.var(), self.name()
-        self.emit(t, "childN %s %s %s" % (v, hx(name), ",".join(ps) if ps else "_"))
-        items = []
-        for p in ps:
-            if self.s.spans[p] is not None:
-                items += self.s.issue(self.s.spans[p])
-        self.s.spans[v] = {"name": name, "items": items, "root_key": None, "props": [], "events": [], "attached": [], "var": v}
+        v = self.var()
+        self.emit(t, "childN %s %s %s" % (v, hx(self.name()), ",".join(ps) if ps else "_"))
         return v
 
     def op_child_local(self, t):
-        v, name = self.var(), self.name()
-        self.emit(t, "childLocal %s %s" % (v, hx(name)))
-        tok = self.s.cur_token(t)
-        self.s.spans[v] = None if tok is None else {"name": name, "items": tok, "root_key": None, "props": [], "events": [], "attached": [], "var": v}
+        v = self.var()
+        self.emit(t, "childLocal %s %s" % (v, hx(self.name())))
         return v
 
     def op_with_props(self, t, v):
-        kvs, re = self.closure()
-        self.emit(t, "withProps %s %d:%s" % (v, re, wprops(kvs)))
-        sp = self.s.spans[v]
-        self.s.closure_obs.append((self.s.pos, sp is not None))
-        if sp is not None:
-            sp["props"] += kvs
+        self.emit(t, "withProps %s %s" % (v, self.closure()))
 
     def op_add_props(self, t, v):
-        kvs, re = self.closure()
-        self.emit(t, "addProps %s %d:%s" % (v, re, wprops(kvs)))
-        sp = self.s.spans[v]
-        self.s.closure_obs.append((self.s.pos, sp is not None))
-        if sp is not None:
-            for it in sp["items"]:
-                if it["sampled"]:
-                    sp["attached"].append((it["root"], ("props", kvs)))
+        self.emit(t, "addProps %s %s" % (v, self.closure()))
 
     def op_add_event(self, t, v):
-        name = self.name("e")
         props = None if self.r.chance(1, 3) else self.kvs()
-        self.emit(t, "addEvent %s %s %s" % (v, hx(name), "none" if props is None else wprops(props)))
-        sp = self.s.spans[v]
-        if sp is not None:
-            for it in sp["items"]:
-                if it["sampled"]:
-                    sp["attached"].append((it["root"], ("event", name, props or [])))
+        self.emit(t, "addEvent %s %s %s" % (v, hx(self.name("e")), "none" if props is None else wprops(props)))
 
     def op_drop(self, t, v):
         self.emit(t, "drop %s" % v)
-        s = self.s
-        sp = s.spans.pop(v)
-        if sp is None:
-            return
-        for it in sp["items"]:
-            if it["sampled"]:
-                att = [a for (rk, a) in sp["attached"] if rk == it["root"]]
-                props = list(sp["props"])
-                events = []
-                for a in att:
-                    if a[0] == "props":
-                        props += a[1]
-                    else:
-                        events.append((a[1], a[2]))
-                s.deliver(sp["name"], it, it["parent"], props, events, "span")
-        if sp["root_key"] and sp["root_key"] != "U":
-            tr = s.traces[sp["root_key"]]
-            tr["commit_pos"] = s.pos
-            tr["commit_thread"] = t
-        if sp["root_key"] == "U" or sp["root_key"]:
-            s.th(t)["touched"] = True
 
     def op_cancel(self, t, v):
         self.emit(t, "cancel %s" % v)
-        sp = self.s.spans[v]
-        if sp is not None and sp["root_key"]:
-            self.s.th(t)["touched"] = True
-            if sp["root_key"] != "U" and self.s.cancelable:
-                self.s.traces[sp["root_key"]]["cancelled"] = True
 
     def op_elapsed(self, t, v):
         self.emit(t, "elapsed %s" % v)
 
     def op_ctx_of(self, t, v):
         self.emit(t, "ctxOf %s" % v)
-        sp = self.s.spans[v]
-        exp = None
-        if sp is not None and sp["items"]:
-            it = sp["items"][0]
-            exp = (it["trace"], ("span", sp["name"]), it["sampled"])
-        self.s.ctx_obs.append((self.s.pos, exp))
 
     def op_ctx_local(self, t):
         self.emit(t, "ctxLocal")
-        tok = self.s.cur_token(t)
-        self.s.ctx_obs.append((self.s.pos, self.s.ctx_of_items(tok) if tok else None))
 
     def op_scope(self, t, v):
         self.emit(t, "scope %s" % v)
-        th = self.s.th(t)
-        sp = self.s.spans[v]
-        if sp is None or len(th["scopes"]) >= STACK_CAP:
-            th["guards"].append(("scope", None))
-            return
-        sc = {"kind": "parent", "items": self.s.issue(sp), "sampled": any(it["sampled"] for it in sp["items"]),
-              "open": [], "entries": [], "qlen": 0, "owner": sp, "to_owner": []}
-        th["scopes"].append(sc)
-        th["guards"].append(("scope", sc))
 
     def op_collector(self, t):
         self.emit(t, "collectorStart")
-        th = self.s.th(t)
-        if len(th["scopes"]) >= STACK_CAP:
-            th["guards"].append(("coll", None))
-            return
-        sc = {"kind": "coll", "items": [], "sampled": True, "open": [], "entries": [], "qlen": 0, "owner": None, "to_owner": []}
-        th["scopes"].append(sc)
-        th["guards"].append(("coll", sc))
 
     def op_local_enter(self, t):
-        name = self.name("l")
-        self.emit(t, "localEnter %s" % hx(name))
-        th = self.s.th(t)
-        sc = self.s.top(t)
-        if sc is None or not sc["sampled"] or sc["qlen"] >= QUEUE_CAP:
-            th["guards"].append(("local", None, None))
-            return
-        e = {"name": name, "parent": ("span", sc["open"][-1]) if sc["open"] else None, "props": [], "events": []}
-        sc["entries"].append(e)
-        sc["qlen"] += 1
-        sc["open"].append(name)
-        th["guards"].append(("local", e, sc))
+        self.emit(t, "localEnter %s" % hx(self.name("l")))
 
     def op_close(self, t):
         self.emit(t, "close")
-        th = self.s.th(t)
-        g = th["guards"].pop()
-        self.s.close_guard(t, g)
-        if g[0] == "scope" and g[1] is not None and g[1]["sampled"]:
-            th["touched"] = True
 
     def op_collect(self, t):
         x = "x%d" % (len(self.s.lspans) + 1)
         self.emit(t, "collect %s" % x)
-        th = self.s.th(t)
-        g = th["guards"].pop()
-        ents = []
-        if g[1] is not None:
-            th["scopes"].pop()
-            ents = g[1]["entries"]
-        self.s.lspans[x] = ents
         return x
 
     def op_l_with_props(self, t):
-        kvs, re = self.closure()
-        self.emit(t, "lWithProps %d:%s" % (re, wprops(kvs)))
-        g = self.s.th(t)["guards"][-1]
-        self.s.closure_obs.append((self.s.pos, g[1] is not None))
-        if g[1] is not None:
-            g[1]["props"] += kvs
+        self.emit(t, "lWithProps %s" % self.closure())
 
     def op_l_add_props(self, t):
-        kvs, re = self.closure()
-        self.emit(t, "lAddProps %d:%s" % (re, wprops(kvs)))
-        sc = self.s.top(t)
-        rec = sc is not None and sc["sampled"]
-        self.s.closure_obs.append((self.s.pos, rec))
-        if rec and sc["qlen"] < QUEUE_CAP:
-            sc["qlen"] += 1
-            self.attach_local(sc, ("props", kvs))
+        self.emit(t, "lAddProps %s" % self.closure())
 
     def op_l_add_event(self, t):
-        name = self.name("e")
         props = None if self.r.chance(1, 3) else self.kvs()
-        self.emit(t, "lAddEvent %s %s" % (hx(name), "none" if props is None else wprops(props)))
-        sc = self.s.top(t)
-        if sc is not None and sc["sampled"] and sc["qlen"] < QUEUE_CAP:
-            sc["qlen"] += 1
-            self.attach_local(sc, ("event", name, props or []))
-
-    def attach_local(self, sc, a):
-        if sc["open"]:
-            e = [x for x in sc["entries"] if x["name"] == sc["open"][-1]][0]
-            if a[0] == "props":
-                e["props"] += a[1]
-            else:
-                e["events"].append((a[1], a[2]))
-        elif sc["kind"] == "parent":
-            sc["to_owner"].append(a)
-        else:
-            sc.setdefault("orphans", []).append(a)   # collector scope, no local open: parent id 0
+        self.emit(t, "lAddEvent %s %s" % (hx(self.name("e")), "none" if props is None else wprops(props)))
 
     def op_push_child(self, t, v, x):
         self.emit(t, "pushChild %s %s" % (v, x))
-        sp = self.s.spans[v]
-        ents = self.s.lspans[x]
-        if sp is None or not ents:
-            return
-        for it in self.s.issue(sp):
-            if it["sampled"]:
-                for e in ents:
-                    self.s.deliver(e["name"], it, e["parent"] or it["parent"], e["props"], e["events"], "pushed")
 
     def op_to_records(self, t, x):
-        trace, span = 1 + self.r.below(5), self.r.below(50)
-        self.emit(t, "toRecords %s %x %x" % (x, trace, span))
-        return trace, span
+        self.emit(t, "toRecords %s %x %x" % (x, 1 + self.r.below(5), self.r.below(50)))
 
     def op_cycle(self):
         self.emit(0, self.r.pick(["cycle", "cycle", "cycle", "flush"]))
@@ -393,11 +469,6 @@ class Gen:
 
     def op_exit(self, t):
         self.emit(t, "exit")
-        th = self.s.th(t)
-        while th["guards"]:
-            g = th["guards"].pop()
-            self.s.close_guard(t, g)
-        th["alive"] = False
 
     # ------------------------------------------------------------------ program shapes
     def prologue(self):
@@ -528,7 +599,13 @@ class Gen:
             elif c == "ctxLocal":
                 self.op_ctx_local(t)
             elif c == "pushChild":
-                self.op_push_child(t, r.pick(spans), r.pick(list(s.lspans)))
+                v, x = r.pick(spans), r.pick(list(s.lspans))
+                keys = set(it["root"] for it in (s.spans[v] or {"items": []})["items"] if it["sampled"])
+                done = self.pushed.setdefault(x, set())
+                # the same set delivered twice into one trace is the open finding D10: only on request
+                if self.k["same_trace_multi"] or not (keys & done):
+                    done |= keys
+                    self.op_push_child(t, v, x)
             elif c == "toRecords":
                 self.op_to_records(t, r.pick(list(s.lspans)))
             elif c == "exit":
